@@ -23,13 +23,20 @@
 #else
 #include <stdio.h>
 #include <unistd.h>
+#include <sys/syscall.h>
 static int vp_replay_failures;
+/* harnesses of the example programs replace fprintf/write by stubs: report through the raw syscall */
+static void vp_emit(const char *tag, const char *msg)
+{
+    char b[600];
+    int n = snprintf(b, sizeof b, "%s%s\n", tag, msg);
+    if (n > (int)sizeof b) n = (int)sizeof b;
+    if (n > 0) syscall(SYS_write, 2, b, (size_t)n);
+}
 /* a failed assertion is recorded and the run continues, so that the report names exactly the
  * obligations that fail on this input (the engine matches them against the solver's claim) */
-#define VP_ASSERT(c, msg) do { if (!(c)) { fprintf(stderr, "VP_REPLAY_FAIL: %s\n", msg); \
-        fflush(stderr); vp_replay_failures++; } } while (0)
-#define VP_ASSUME(c) do { if (!(c)) { fprintf(stderr, "VP_REPLAY_VOID: assumption not met: %s\n", #c); \
-        fflush(stderr); _exit(3); } } while (0)
+#define VP_ASSERT(c, msg) do { if (!(c)) { vp_emit("VP_REPLAY_FAIL: ", msg); vp_replay_failures++; } } while (0)
+#define VP_ASSUME(c) do { if (!(c)) { vp_emit("VP_REPLAY_VOID: assumption not met: ", #c); _exit(3); } } while (0)
 #define VP_REACH(label) ((void)0)
 #include "vp_replay_in.h"
 #define VP_INPUT(T, in) T in = (T) VP_REPLAY_INIT
@@ -39,7 +46,7 @@ static int vp_replay_failures;
 #endif
 void VP_ENTRY_FN(void);
 #ifndef VP_NO_MAIN
-int main(void) { VP_ENTRY_FN(); fprintf(stderr, "VP_REPLAY_DONE failures=%d\n", vp_replay_failures);
+int main(void) { VP_ENTRY_FN(); vp_emit("VP_REPLAY_DONE ", vp_replay_failures ? "with failures" : "no failures");
                  return vp_replay_failures ? 1 : 0; }
 #endif
 #endif
